@@ -32,7 +32,7 @@ type gxPkg struct {
 var gxPkgs = map[string]*gxPkg{}
 
 func gxLoad(repo string) error {
-	for _, d := range []string{"common", "packets", "icmp", "tcp", "udp", "sack", "traceroute"} {
+	for _, d := range []string{"common", "packets", "icmp", "tcp", "udp", "sack", "traceroute", "publicip"} {
 		fset := token.NewFileSet()
 		ents, err := os.ReadDir(filepath.Join(repo, d))
 		if err != nil {
@@ -186,6 +186,7 @@ type gxFn struct {
 	recvName  string
 	fail      string
 	locals    map[string]bool
+	classMode bool     // functions returning (value, error): the result is a class — 0 ok, 1 plain error, 2 backoff.Permanent error
 	elemMode  bool     // translating the body of a range loop that fills one output element per iteration
 	elemKeys  []string // the fields of the output element, in the order they are emitted
 }
@@ -351,7 +352,10 @@ func (g *gxFn) tr(e ast.Expr) string {
 			}
 			if other != nil {
 				if s, ok := flat(other); ok {
-					p := g.param(s+"_isnil", "bool")
+					p := s + "_isnil"
+					if !g.locals[p] {
+						p = g.param(p, "bool")
+					}
 					if x.Op == token.EQL {
 						return p
 					}
@@ -597,6 +601,48 @@ func (g *gxFn) stmts(list []ast.Stmt, results int) string {
 					return "Some (" + strings.Join(out, ", ") + ")"
 				}
 			}
+		}
+	}
+	if g.classMode {
+		switch x := s.(type) {
+		case *ast.ReturnStmt:
+			if len(x.Results) == 2 {
+				if exprString(x.Results[1]) == "nil" {
+					return "0"
+				}
+				if c, ok := x.Results[1].(*ast.CallExpr); ok && exprString(c.Fun) == "backoff.Permanent" {
+					return "2"
+				}
+				return "1"
+			}
+		case *ast.AssignStmt:
+			if len(x.Lhs) == 2 && len(x.Rhs) == 1 && exprString(x.Lhs[1]) == "err" {
+				if c, ok := x.Rhs[0].(*ast.CallExpr); ok {
+					name := strings.NewReplacer(".", "_", "(", "", ")", "").Replace(exprString(c.Fun))
+					g.locals["err_isnil"] = true
+					return "let err_isnil := " + g.param("err_"+name+"_isnil", "bool") + " in\n  " + g.stmts(rest, results)
+				}
+			}
+			if len(x.Lhs) == 1 && len(x.Rhs) == 1 && x.Tok == token.DEFINE {
+				// a value the classification only looks at through nil tests / fields: leave it opaque
+				if _, isCall := x.Rhs[0].(*ast.CallExpr); isCall {
+					save := g.fail
+					probe := *g
+					probe.params = append([]string{}, g.params...)
+					probe.ptypes = map[string]string{}
+					for k, v := range g.ptypes {
+						probe.ptypes[k] = v
+					}
+					probe.fail = ""
+					probe.tr(x.Rhs[0])
+					if probe.fail != "" {
+						g.fail = save
+						return g.stmts(rest, results)
+					}
+				}
+			}
+		case *ast.DeferStmt:
+			return g.stmts(rest, results)
 		}
 	}
 	switch x := s.(type) {
@@ -862,6 +908,21 @@ func goExprs(repo string) (map[string]string, error) {
 	} else {
 		problems[gxGroup] = append(problems[gxGroup], "common.ToHops not found")
 	}
+	gxGroup = "GoPublicIP"
+	if fd, ok := gxPkgs["publicip"].funcs["handleRequest"]; ok {
+		g := newGxFn("publicip", false)
+		g.classMode = true
+		g.bindParams(fd.Type, fd.Recv)
+		body := g.stmts(fd.Body.List, 2)
+		if g.fail != "" {
+			problems[gxGroup] = append(problems[gxGroup], "publicip.handleRequest: "+g.fail)
+		} else {
+			gxDone["go_publicip_handleRequest_class"] = &gxOut{group: gxGroup, coqName: "go_publicip_handleRequest_class", params: g.params, ptypes: g.ptypes, body: body, src: "publicip.handleRequest (0 ok, 1 retryable error, 2 permanent error)"}
+			gxOrder = append(gxOrder, "go_publicip_handleRequest_class")
+		}
+	} else {
+		problems[gxGroup] = append(problems[gxGroup], "publicip.handleRequest not found")
+	}
 	gxGroup = "GoAlloc"
 	fn("packets", "AllocPacketID", false)
 	fn("icmp", "nextEchoID", false)
@@ -1003,7 +1064,7 @@ func goExprs(repo string) (map[string]string, error) {
 		})
 	}
 	out := map[string]string{}
-	for _, grp := range []string{"GoTimeout", "GoValidate", "GoClip", "GoHops", "GoAlloc", "GoIds", "GoMerge", "GoRange"} {
+	for _, grp := range []string{"GoTimeout", "GoValidate", "GoClip", "GoHops", "GoPublicIP", "GoAlloc", "GoIds", "GoMerge", "GoRange"} {
 		var b strings.Builder
 		b.WriteString("(** GENERATED on every run by tools/goextract (exprs.go) from /repo.  Do not edit.\n")
 		for _, p := range problems[grp] {
